@@ -241,3 +241,28 @@ pub fn guarded<F: FnOnce()>(out: &mut Vec<String>, what: &str, f: F) {
         out.push("R mark".to_string());
     }
 }
+
+
+// ---- file-size limit (a way to make SQLite's COMMIT itself fail)
+#[repr(C)]
+struct RLimit { cur: u64, max: u64 }
+extern "C" {
+    fn getrlimit(resource: i32, rlim: *mut RLimit) -> i32;
+    fn setrlimit(resource: i32, rlim: *const RLimit) -> i32;
+    fn signal(signum: i32, handler: usize) -> usize;
+}
+const RLIMIT_FSIZE: i32 = 1;
+const SIGXFSZ: i32 = 25;
+const SIG_IGN: usize = 1;
+
+/// Some(bytes): lower the soft RLIMIT_FSIZE of this process (writes beyond it fail with EFBIG, the
+/// signal is ignored); None: back to the hard limit
+pub fn set_fsize_limit(bytes: Option<u64>) {
+    unsafe {
+        signal(SIGXFSZ, SIG_IGN);
+        let mut cur = RLimit { cur: 0, max: 0 };
+        assert_eq!(getrlimit(RLIMIT_FSIZE, &mut cur), 0);
+        let new = RLimit { cur: bytes.unwrap_or(cur.max), max: cur.max };
+        assert_eq!(setrlimit(RLIMIT_FSIZE, &new), 0);
+    }
+}
